@@ -511,6 +511,100 @@ theorem eraseBufs_map {V W : Type} (h : V → W) (zero : V) (T : XorTable) (E : 
     simp only [eraseBufs, List.foldl_cons] at ih ⊢
     rw [ih, XState.set_map]
 
+/-- pointwise description of `eraseBufs` on the data buffers (reading with default `zero`). -/
+theorem eraseBufs_data_getD {V : Type} (zero : V) (T : XorTable) (E : List Nat) (x : XState V)
+    (i : Nat) : (eraseBufs zero T E x).data.getD i zero =
+      if i ∈ E ∧ i < T.k then zero else x.data.getD i zero := by
+  induction E generalizing x with
+  | nil => simp [eraseBufs]
+  | cons e E ih =>
+    simp only [eraseBufs, List.foldl_cons] at ih ⊢
+    rw [ih]
+    unfold XorTable.bufOf
+    by_cases he : e < T.k
+    · simp only [he, if_true, XState.set, getD_set']
+      by_cases hei : e = i
+      · subst hei
+        by_cases hl : e < x.data.length
+        · simp [he, hl]
+        · simp [he, hl]
+      · have : ¬ i = e := fun h => hei h.symm
+        simp [hei, this]
+    · simp only [he, if_false, XState.set]
+      by_cases hei : i = e
+      · subst hei; simp [he]
+      · simp [hei]
+
+/-- pointwise description of `eraseBufs` on the parity buffers. -/
+theorem eraseBufs_parity_getD {V : Type} (zero : V) (T : XorTable) (E : List Nat) (x : XState V)
+    (j : Nat) : (eraseBufs zero T E x).parity.getD j zero =
+      if T.k + j ∈ E then zero else x.parity.getD j zero := by
+  induction E generalizing x with
+  | nil => simp [eraseBufs]
+  | cons e E ih =>
+    simp only [eraseBufs, List.foldl_cons] at ih ⊢
+    rw [ih]
+    unfold XorTable.bufOf
+    by_cases he : e < T.k
+    · have : ¬ T.k + j = e := by omega
+      simp [he, XState.set, this]
+    · simp only [he, if_false, XState.set, getD_set']
+      by_cases hej : e - T.k = j
+      · have e1 : T.k + j = e := by omega
+        subst hej
+        by_cases hl : e - T.k < x.parity.length
+        · simp [e1, hl]
+        · simp [e1, hl]
+      · have : ¬ T.k + j = e := by omega
+        simp [hej, this]
+
+theorem eraseBufs_lengths {V : Type} (zero : V) (T : XorTable) (E : List Nat) (x : XState V) :
+    (eraseBufs zero T E x).data.length = x.data.length ∧
+    (eraseBufs zero T E x).parity.length = x.parity.length := by
+  induction E generalizing x with
+  | nil => exact ⟨rfl, rfl⟩
+  | cons e E ih =>
+    simp only [eraseBufs, List.foldl_cons] at ih ⊢
+    obtain ⟨h1, h2⟩ := ih (x.set (T.bufOf e) zero)
+    rw [h1, h2]
+    unfold XorTable.bufOf
+    split <;> simp [XState.set]
+
+theorem list_eq_range_map {α : Type} (l : List α) (d : α) (n : Nat) (hn : l.length = n) (f : Nat → α)
+    (h : ∀ i, i < n → l.getD i d = f i) : l = (List.range n).map f := by
+  apply List.ext_getElem (by simp [hn])
+  intro i h1 h2
+  have := h i (by omega)
+  rw [getD_of_lt h1] at this
+  simp [this]
+
+/-- the symbolic start state of decode/reconstruct, spelled out: data i = `1 <<< i` unless
+    `i ∈ E` (then 0); parity j = `pbm j` unless `k + j ∈ E` (then 0). -/
+theorem eraseBufs_symGoal (T : XorTable) (E : List Nat) :
+    (eraseBufs 0 T E T.symGoal).data = (List.range T.k).map (fun i => if i ∈ E then 0 else 1 <<< i) ∧
+    (eraseBufs 0 T E T.symGoal).parity
+      = (List.range T.m).map (fun j => if T.k + j ∈ E then 0 else T.pbm j) ∧
+    (eraseBufs 0 T E T.symGoal).tmp = 0 := by
+  obtain ⟨l1, l2⟩ := eraseBufs_lengths 0 T E T.symGoal
+  refine ⟨?_, ?_, ?_⟩
+  · apply list_eq_range_map _ 0 _ (by rw [l1]; simp [XorTable.symGoal])
+    intro i hi
+    rw [eraseBufs_data_getD]
+    simp [XorTable.symGoal, hi]
+  · apply list_eq_range_map _ 0 _ (by rw [l2]; simp [XorTable.symGoal])
+    intro j hj
+    rw [eraseBufs_parity_getD]
+    simp [XorTable.symGoal, hj]
+  · have : ∀ (E : List Nat) (x : XState Nat), (eraseBufs 0 T E x).tmp = x.tmp := by
+      intro E
+      induction E with
+      | nil => intro x; rfl
+      | cons e E ih =>
+        intro x
+        simp only [eraseBufs, List.foldl_cons] at ih ⊢
+        rw [ih]; unfold XorTable.bufOf; split <;> rfl
+    rw [this]; rfl
+
 namespace XorTable
 variable (T : XorTable)
 
